@@ -24,6 +24,12 @@ CORPUS = [
 ]
 
 
+EDGE = ["I:%d" % (2 ** 1024), "I:%d" % (2 ** 1024 - 1), "I:%d" % -(2 ** 1100), "R:1/%d" % (2 ** 1074), "R:-1/%d" % (2 ** 1075),
+        "R:%d/3" % (2 ** 1025), "R:-1/10", "D:8000000000000000", "D:0000000000000001", "D:7fefffffffffffff",
+        "D:7ff0000000000000", "D:fff0000000000000", "D:" + nc.hexd(-0.1)]
+CORPUS += ["%s %s %s" % (o, a, b) for o in ("lt", "le", "ge") for a in EDGE for b in EDGE]
+
+
 def boundary_values(rng, n):
     """values around the case splits: integers near 2^53 (inexact conversion), doubles equal to /
     adjacent to exact values, rationals and their truncations, signed zeros, huge values"""
